@@ -428,18 +428,20 @@ def _lazy_cat(
             )
         if out.stack_dim != dim:
             index_base = (slice(None),) * out.stack_dim
+            # the members of out do not have the dim out.stack_dim
+            cat_dim = dim if dim < out.stack_dim else dim - 1
             for i, sub_dest in enumerate(out.tensordicts):
                 index = index_base + (i,)
                 tds_to_cat = [_td[index] for _td in list_of_tensordicts]
-                torch.cat(tds_to_cat, dim, out=sub_dest)
+                torch.cat(tds_to_cat, cat_dim, out=sub_dest)
         else:
             init_idx = 0
             for td_in in list_of_tensordicts:
+                # the members [init_idx, init_idx + n) of out receive the n slices of td_in
                 sub_dest = out.tensordicts[init_idx : init_idx + td_in.shape[dim]]
-                init_idx += init_idx + td_in.shape[dim]
-                LazyStackedTensorDict.maybe_dense_stack(sub_dest, out.stack_dim).update(
-                    td_in, inplace=True
-                )
+                init_idx += td_in.shape[dim]
+                for dest, source in _zip_strict(sub_dest, td_in.unbind(dim)):
+                    dest.update(source, inplace=True)
 
         return out
 
